@@ -457,9 +457,12 @@ func (fl *file) managedGo(g *ast.GoStmt) ast.Stmt {
 	}, lit.Body.List...)
 	lit.Body.List = body
 	fl.inserted++
+	line := fl.fset.Position(g.Pos()).Line
 	return &ast.BlockStmt{List: []ast.Stmt{
 		&ast.AssignStmt{Lhs: []ast.Expr{id}, Tok: token.DEFINE, Rhs: []ast.Expr{hook("WillSpawn")}},
 		g,
+		// the new goroutine may run before its parent does anything else
+		fl.yield(fmt.Sprintf("i:%s:%d:spawned", fl.name, line)),
 	}}
 }
 
